@@ -559,8 +559,13 @@ class G:
 
 
 def gen_file(rng, allow_move, tools):
-    g = G(rng, allow_move, tools)
-    g.build()
+    while True:
+        g = G(rng, allow_move, tools)
+        g.build()
+        # a skool file cannot address beyond 65535 (base 65000 plus @org gaps could run past it, and
+        # skool2asm then prints an ORG no assembler accepts): keep generated files inside the 64K space
+        if max(g.all_addrs) + 64 < 65536:
+            break
     text = g.render()
     return g, text
 
